@@ -5,10 +5,11 @@ Shape A (product-space enumeration), two sub-spaces, both enumerated completely:
   part A  "every content":  EVERY ragged list of 1..N rows, each row EVERY string of length 0..M over the
           alphabet, x every window 1..W (total letters >= window).  Small alphabets / short rows, so that
           every letter arrangement around every row boundary occurs.
-  part B  "every window length":  window w = 1..31 x every list of 1..3 (thorough: also 4) rows with lengths
-          from {0, 1, w-1, w, w+1, 2w} x alphabets ACGT (bit-packed path), ACGTN, amino acids (generic path)
-          x deterministic letter fills x input representation (freshly encoded / non-contiguous view obtained
-          by slicing a padded array / un-encoded ASCII text).
+  part B  "every window length":  window w = 1..31 x every list of 1..3 rows (thorough: also 4; see bounds()
+          for the exact length set per row count) with lengths from {0, 1, w-1, w, w+1, 2w} x alphabets ACGT
+          (bit-packed path), ACGTN, amino acids (generic path) x deterministic letter fills x input
+          representation (freshly encoded / non-contiguous view obtained by slicing a padded array /
+          un-encoded ASCII text).
 
 On every case the real functions are called:  get_kmers(w), get_minimizers(k, w) for EVERY k <= w,
 match_string (patterns of length w: first and last in-row window, first window of the concatenated text that
@@ -42,8 +43,8 @@ RULE = ('a case = (alphabet, list of row texts, window w, input representation);
 ASSUMPTIONS = [
     'generic-path k-mer codes are only demanded while |A|**k < 2**63 (ACGTN: k <= 27, amino acids: k <= 14); the '
     '4-letter bit-packed path is explored to k = 31',
-    'count_kmers is only judged while |A|**k <= 300 (part A: 64; per-row counts 16) and k <= 8 (its result is a dense vector of |A|**k counts and the '
-    'library refuses k > 8 with an assertion: counted as refused, not judged)',
+    'count_kmers is only judged while |A|**k <= 300 (part A: 64; per-row counts 16) and k <= 8 (its result is a dense '
+    'vector of |A|**k counts and the library refuses k > 8 with an assertion: counted as refused, not judged)',
     'precondition of the statement: total number of letters >= window (generator constraint)',
     'get_minimizers is not called on un-encoded ASCII text (its documented precondition is an AlphabetEncoding)',
     'PWM cells are multiples of 1/4 or -inf so that any summation order gives bit-identical scores',
